@@ -66,6 +66,10 @@ CHECKS = {
    text="Compact.tla defines target, work (by the defining inequality of floor(2^256/(t+1))) and floor(log2) over arbitrary-precision naturals implemented in TLA+ (BigNat.tla); the harness RECORDS what domains.CompactToBig / CalculateWork / FastLog2Floor compute for all 256 exponents x both signs x a 19-point mantissa lattice, real network bits and random 32-bit values, and for the window [2^k-140, 2^k+3] around every power of two; TLC validates every recorded line against the specification (exact target and sign, work inequality, work antitone between target-sorted neighbours, log2 bounds).",
    technique="explicit TLA+ definitional spec (Compact.tla/BigNat.tla); recorded arithmetic results validated line by line by TLC (trace validation)",
    note="Trusted: TLC, Json module. The 2^32 domain is sampled (≈1.5e4 quick, ≈2e5 thorough), not enumerated: complete enumeration is out of TLC's reach (stated in DESIGN.md §6)."),
+ "C14": dict(cat="exploration", ref="DESIGN.md §5 C14, §6",
+   text="Wire.tla models the frame parser as a state machine (header, global limit, magic, command utf8/known, per-type limit, payload read, checksum, decode) and gives the owed verdict for every buildable combination of frame classes x 18 message kinds (2141 rows, emitted by TLC; TLC checks RoundTrip, HostileRejected, AllocationBounded on the table); each row is concretised several times (3 quick / 40 thorough) at three protocol versions with random field values within protocol limits (times over the whole uint32 range); verdict compared; valid frames round-tripped (decoded value equality, byte-identical re-encoding through WriteMessage); every decode runs under a watchdog with allocation accounting; plus raw random bytes and bit-flip/truncation/splice mutations of valid frames.",
+   technique="explicit TLA+ parser state machine (Wire.tla) checked and emitted by TLC; class-wise concretised frames and mutated frames against wire.ReadMessage/WriteMessage",
+   note="The specification enumerates classes of frames; arbitrary mutated byte strings are sampled, not enumerated (a coverage-guided byte-level fuzzer is outside this technique family; DESIGN.md §6)."),
 }
 
 NA = []
